@@ -68,10 +68,12 @@ def replay_desc_fix(prefix="f0"):
         desc = [(k, bool(cex.get(f"{prefix}_{k}_ignored")), bool(cex.get(f"{prefix}_{k}_warning")))
                 for k in oc.KINDS if cex.get(f"{prefix}_{k}")]
         feu = bool(cex.get("fix_even_unparsable"))
-        code, changed, sql, out = oc.cli_fix_on_disk(desc, feu)
-        if oc.has_tmp_prs(desc) and not feu and changed:
-            return f"`sqlfluff fix` rewrote a file with a templating/parsing error: {sql!r} (violations {desc})"
-        return None
+        def once():
+            code, changed, sql, out = oc.cli_fix_on_disk(desc, feu)
+            if oc.has_tmp_prs(desc) and not feu and changed:
+                return f"`sqlfluff fix` rewrote a file with a templating/parsing error: {sql!r} (violations {desc})"
+            return None
+        return oc.each_style(once)
     return rp
 
 
